@@ -1,7 +1,6 @@
-CONSTANTS NA = 4  Assets = {"nria", "alt", "big"}  BigCap = 3  Profile = "fees"  MaxTxs = 1
+CONSTANTS NA = 4  Assets = {"nria", "alt", "big"}  BigCap = 3  Profile = "atomic"  MaxTxs = 2
 INIT Init
 NEXT Next
 INVARIANTS TypeOK
 PROPERTIES Conservation FeesExact FeesAccumulate FeesRouted DebitAuthorised PrivilegedChange Atomic NonceStep DepositsBacked WithdrawalOnce
-ACTION_CONSTRAINT LogStep
 CHECK_DEADLOCK FALSE
